@@ -10,7 +10,7 @@
 (***************************************************************************)
 EXTENDS TLC, Json, Sequences
 VARIABLE c
-StrCls  == {"empty", "ascii", "slash", "html", "multibyte", "invalidutf8", "len64", "long", "nul", "quote"}
+StrCls  == {"empty", "ascii", "slash", "html", "multibyte", "hexaddr", "invalidutf8", "len64", "long", "nul", "quote"}
 ByteCls == {"empty", "short", "b32", "nonutf8", "long"}
 NumCls  == {"0", "1", "2p53p1", "2p63", "max"}
 Objs    == {"packet", "ack", "transfer", "calldata"}
